@@ -1,4 +1,5 @@
 import PyPred.Props.C01
+import PyPred.Props.C01Total
 open PyPred
 #print axioms C01_optimize_preserves
 #print axioms C01_partial_impl
@@ -14,3 +15,6 @@ open PyPred
 #print axioms beq_sound
 #print axioms negate_sound
 #print axioms implies_sound
+#print axioms optimizeF_spec
+#print axioms C01_optimize_total_preserves
+#print axioms C01_optimize_total_closed
